@@ -75,7 +75,7 @@ def aheadLoop : Nat → Bytes → EndState → List Head × AheadEnd
     | .error (.stop .pending) => ([], .waitingForClient)
     | .error _ => ([], .closed)
     | .ok (h, rest) =>
-      match framingOf h.headers with
+      match framingFor h.version h.headers with
       | .error _ => ([], .closed)
       | .ok fr =>
         if (⟨Extracted.maxVersion.1, Extracted.maxVersion.2⟩ : Version).lt h.version then ([], .blockedOnBody)   -- 505 path: not followed here
